@@ -27,6 +27,7 @@ CFG = dict(
                   "SaramaVerif.Model.Lifecycle", "SaramaVerif.Props.C12life"],
     lean_support=["SaramaVerif.Driver.ProducerTrace", "SaramaVerif.Model.PartProd", "SaramaVerif.Model.IdemBroker",
                   "SaramaVerif.Driver.LifecycleTrace"],
+    confirm_scenario_diffs=True,
     model="C12",
     overlay=["sim", "c12"],
     required_theorems=["Props.C18c.step_inv", "Props.C18c.consumer_interceptors_once", "Props.C18c.deliver_follows_icept", "Props.C18c.one_ack_per_response", "Props.C18c.nothing_after_closed",
